@@ -33,10 +33,17 @@ var ExtraHalves []func(r *chk.Run)
 var ExtraReplays = map[string]func(input json.RawMessage) (bool, string){}
 
 func run(r *chk.Run) {
-	RunSynthetic(r)
+	// the end-to-end half first: it is sequential per history, so a failure that
+	// depends on shared state (a pooled output buffer) is reproducible there;
+	// the parallel synthetic enumeration would only see it as noise
 	for _, f := range ExtraHalves {
 		f(r)
 	}
+	if r.Violated() {
+		r.SetExhaustive(false)
+		return
+	}
+	RunSynthetic(r)
 }
 
 func replay(kind string, input json.RawMessage) (bool, string) {
